@@ -67,12 +67,7 @@ func c19CheckSegPt(c c19SegPt) fw.Outcome {
 	}
 	nt := level || inBox
 	res := seg.Raycast(p)
-	rayKnown := func(o fw.Outcome) fw.Outcome {
-		if denormalRange(c.Scale) && kf.Enabled("C19", "KF-RANGE") {
-			o.Known = "KF-RANGE"
-		}
-		return o
-	}
+	rayKnown := func(o fw.Outcome) fw.Outcome { return o } // Raycast is asserted at every scale, the denormal one included
 	if res.On != wantOn {
 		return rayKnown(fw.Failf(label, "Segment%v.Raycast(%v).On = %v, exact %v (scale 2^%d)", c.S, c.P, res.On, wantOn, c.Scale))
 	}
@@ -173,12 +168,10 @@ var extremeScales = []int{-1000, -600, -540, 540, 600, 1000}
 
 func extremeRange(scale int) bool { return scale > 480 || scale < -500 }
 
-// denormalScale: every lattice ordinate (< 2^21 in magnitude) is a denormal double.  There even Raycast
-// is off: its one-ulp nudge of a point level with an endpoint is no longer small against the segment
-// (same listed finding, asserted only in C19's segment-point check).
+// denormalScale: every lattice ordinate (< 2^21 in magnitude) is a denormal double.  Raycast used to be
+// off there (its one-ulp nudge of a point level with an endpoint was no longer small against the
+// segment); repaired together with F22, and asserted in C19's segment-point check.
 const denormalScale = -1060
-
-func denormalRange(scale int) bool { return scale <= -1044 }
 
 // genScaleX is genScale plus, one time in twelve, an extreme scale.
 func genScaleX(t *rapid.T) int {
@@ -194,6 +187,19 @@ func rangeKnown(property string, scale int, o fw.Outcome) fw.Outcome {
 		o.Known = "KF-RANGE"
 	}
 	return o
+}
+
+// genFarAway returns, one time in eight at scale 2^0, a translation that puts the whole case far from the
+// origin while every ordinate stays exactly representable: the kernels only ever need coordinate
+// differences, so absolute ordinates near 2^52 must not change an answer.
+func genFarAway(t *rapid.T, scale int) func(exact.P) exact.P {
+	if scale != 0 || rapid.IntRange(0, 7).Draw(t, "faraway") != 0 {
+		return nil
+	}
+	off := []int64{1 << 30, 1 << 40, 1 << 50, (1 << 52) - (1 << 21), -(1 << 30), -(1 << 45), -((1 << 52) - (1 << 21)), 0}
+	tx := rapid.SampledFrom(off).Draw(t, "fartx")
+	ty := rapid.SampledFrom(off).Draw(t, "farty")
+	return func(p exact.P) exact.P { return exact.P{X: p.X + tx, Y: p.Y + ty} }
 }
 
 var farScales = []int{-100, -60, -40, -30, -24, -20, -16, 16, 20, 30, 40, 60, 100}
@@ -261,6 +267,9 @@ func c19GenSegPt(t *rapid.T) c19SegPt {
 	if extremeRange(sc) && rapid.IntRange(0, 5).Draw(t, "denormal") == 0 {
 		sc = denormalScale
 	}
+	if f := genFarAway(t, sc); f != nil {
+		s, p = exact.Seg{A: f(s.A), B: f(s.B)}, f(p)
+	}
 	return c19SegPt{S: s, P: p, Scale: sc}
 }
 
@@ -284,7 +293,11 @@ func c19GenSegSeg(t *rapid.T) c19SegSeg {
 	if rapid.Bool().Draw(t, "swap") {
 		u.A, u.B = u.B, u.A
 	}
-	return c19SegSeg{S: s, T: u, Scale: genScaleX(t)}
+	sc := genScaleX(t)
+	if f := genFarAway(t, sc); f != nil {
+		s, u = exact.Seg{A: f(s.A), B: f(s.B)}, exact.Seg{A: f(u.A), B: f(u.B)}
+	}
+	return c19SegSeg{S: s, T: u, Scale: sc}
 }
 
 func latticePoints(n int64) []exact.P {
